@@ -65,6 +65,63 @@ theorem l_e_l (f t : String) (fo too : Orient) (nf nt : Nat) (c : Cigar)
     subst hfrom
     simp
 
+theorem swapRoles_swapRoles (c : Cigar) (h : c.Involutive) : c.swapRoles.swapRoles = c := by
+  simp only [Cigar.swapRoles, List.map_map]
+  conv => rhs; rw [← List.map_id c]
+  apply List.map_congr_left
+  intro o ho
+  exact C12.flipOp_flipOp o (h o ho)
+
+/-- exchanging the roles exchanges reference and query length and keeps the order of the operations -/
+theorem swapRoles_lens (c : Cigar) : c.swapRoles.refLen = c.queryLen ∧ c.swapRoles.queryLen = c.refLen ∧
+    c.swapRoles.map (·.len) = c.map (·.len) := by
+  refine ⟨?_, ?_, ?_⟩
+  · simp only [Cigar.refLen, Cigar.queryLen, Cigar.swapRoles, List.map_map]
+    congr 1; apply List.map_congr_left; intro o _
+    cases o with | mk n code => cases code <;> rfl
+  · simp only [Cigar.refLen, Cigar.queryLen, Cigar.swapRoles, List.map_map]
+    congr 1; apply List.map_congr_left; intro o _
+    cases o with | mk n code => cases code <;> rfl
+  · simp [Cigar.swapRoles, Cigar.flipOp, Function.comp_def]
+
+/-- **the E line written from the other side is the same link**: with sid1 the to-side and the alignment read
+    with the roles exchanged (I ↔ D, order kept — *not* the reverse complement), E → L gives the link back -/
+theorem swapped_edge_same_link (f t : String) (fo too : Orient) (nf nt : Nat) (c : Cigar)
+    (h1 : c.refLen < nf) (h2 : c.queryLen < nt) (hinv : c.Involutive) :
+    (gfa1OfEdge (swapEdge (edgeOfLink f fo t too c nf nt)) nt nf).map (fun r => (r.1, r.2.1)) =
+      some (.L, ⟨f, fo, t, too, .cigar c⟩) := by
+  have hv1 : ValidIv nf (fromCoords fo nf c).1 (fromCoords fo nf c).2 := by
+    cases fo <;> exact ⟨by simp [fromCoords], by simp [fromCoords] <;> omega, by omega⟩
+  have hv2 : ValidIv nt (toCoords too nt c).1 (toCoords too nt c).2 := by
+    cases too <;> exact ⟨by simp [toCoords], by simp [toCoords] <;> omega, by omega⟩
+  have a1 : ¬ nf - c.refLen = 0 := by omega
+  have a2 : ¬ nt - c.queryLen = 0 := by omega
+  have a3 : ¬ c.refLen = nf := by omega
+  have a4 : ¬ c.queryLen = nt := by omega
+  have hd : isDovetail too fo nt (toCoords too nt c).1 (toCoords too nt c).2 nf (fromCoords fo nf c).1 (fromCoords fo nf c).2 = true ∧
+      sid1IsFrom too fo nt (toCoords too nt c).1 (toCoords too nt c).2 nf (fromCoords fo nf c).1 (fromCoords fo nf c).2 = some false := by
+    cases fo <;> cases too <;>
+      simp [fromCoords, toCoords, isDovetail, sid1IsFrom, isWhole, touchesEnd, touchesStart, a1, a2, a3, a4] <;> omega
+  simp only [gfa1OfEdge, edgeOfLink, swapEdge]
+  rw [substring_type_spec _ _ _ hv1, substring_type_spec _ _ _ hv2]
+  simp only
+  have hat := alignment_type_matches_geometry too fo nt _ _ nf _ _ hv2 hv1
+  have hnc : isContainment nt (toCoords too nt c).1 (toCoords too nt c).2 nf (fromCoords fo nf c).1 (fromCoords fo nf c).2 = false := by
+    cases fo <;> cases too <;> simp [fromCoords, toCoords, isContainment, isWhole] <;> omega
+  rw [hnc, hd.1] at hat
+  simp only [Bool.false_eq_true, if_false, if_true] at hat
+  rw [hat]
+  have hfrom := is_sid1_from_spec too fo nt _ _ nf _ _ hv2 hv1
+  rw [hd.2] at hfrom
+  cases hr : isSid1From (segmentRole (Pos.mk (toCoords too nt c).1 nt) (Pos.mk (toCoords too nt c).2 nt) too)
+      (segmentRole (Pos.mk (fromCoords fo nf c).1 nf) (Pos.mk (fromCoords fo nf c).2 nf) fo) with
+  | error e => rw [hr] at hfrom; simp [Except.toOption] at hfrom
+  | ok b =>
+    rw [hr] at hfrom
+    simp only [Except.toOption, Option.some.injEq] at hfrom
+    subst hfrom
+    simp [swapRoles_swapRoles c hinv]
+
 /-- the complement form converts to the *same* geometric edge with the sides exchanged: E lines do not
     care which form of the link was stored -/
 theorem compl_same_geometry (fo too : Orient) (nf nt : Nat) (c : Cigar) :
@@ -82,5 +139,8 @@ theorem containment_to_edge (f t : String) (fo too : Orient) (pos nt : Nat) (c :
 -- non-vacuity
 example : (gfa1OfEdge (edgeOfLink "A" .minus "B" .plus [⟨2, .M⟩, ⟨1, .D⟩, ⟨3, .M⟩] 10 8) 10 8).map (·.2.1) =
     some ⟨"A", .minus, "B", .plus, .cigar [⟨2, .M⟩, ⟨1, .D⟩, ⟨3, .M⟩]⟩ := by decide
+
+example : (gfa1OfEdge (swapEdge (edgeOfLink "A" .plus "B" .plus [⟨2, .M⟩, ⟨1, .D⟩, ⟨1, .M⟩] 10 8)) 8 10).map (·.2.1) =
+    some ⟨"A", .plus, "B", .plus, .cigar [⟨2, .M⟩, ⟨1, .D⟩, ⟨1, .M⟩]⟩ := by decide
 
 end Gfa.C06
